@@ -923,10 +923,13 @@ pub fn candidates(
                 .and_then(|i| i.journal.as_ref())
                 .map(|j| j.synced_len)
                 .unwrap_or(0);
-            let keep = match rng.below(4) {
+            let keep = match rng.below(6) {
                 0 => None,
                 1 => Some(synced),
-                _ => Some(rng.range(synced.min(os_len), os_len)),
+                2 | 3 => Some(rng.range(synced.min(os_len), os_len)),
+                // into the part that the writer still holds in its buffer (the crash hits
+                // while it is being written out); clamped to what exists when executed
+                _ => Some(os_len + rng.range(1, 3000)),
             };
             out.push(Candidate {
                 action: Action::CrashServer { keep_bytes: keep },
